@@ -2,6 +2,7 @@
 # Build the Lean library (models, lemmas, property theorems) and the native model driver. Offline.
 set -e
 DIR="$(cd "$(dirname "${BASH_SOURCE[0]}")" && pwd)"
+/venv/bin/python "$DIR/tools/gen_lean_roots.py"
 cd "$DIR/lean"
 lake build
 test -x .lake/build/bin/tvdriver
